@@ -188,6 +188,16 @@ fn run_case(line: &str) -> R<String> {
             let v = r.log.borrow().len();
             format!("{} viol={}", print_mres(&res, r.len()), v)
         }
+        "DECC" => {
+            let mut r = CheckedReader::new(unhex(arg(2))?);
+            let _ = Message::<Vec<u8>>::try_read_validate(&mut r, opts_of(arg(1))?);
+            format!("cost={}", r.cost.get())
+        }
+        "AVPSC" => {
+            let mut r = CheckedReader::new(unhex(arg(1))?);
+            let _ = AVP::try_read_greedy::<Vec<u8>>(&mut r);
+            format!("cost={}", r.cost.get())
+        }
         "DECSEQ" => {
             let b = unhex(arg(2))?;
             let mut r = SliceReader::from(&b);
